@@ -437,14 +437,20 @@ fn real_writer_scenario(kind: &str, want: &[u8], raws: &[Vec<u8>]) -> Vec<(Strin
         }))
     };
     match kind {
-        "bufdefault" | "bufnew" => {
-            let b = Rc::new(if kind == "bufdefault" { ObjectWriterBufferBuilder::default() } else { ObjectWriterBufferBuilder::new(true) });
+        "bufdefault" | "bufnew" | "bufoff" => {
+            // `bufoff` = new(false): MD5 checking switched off by the application, a corrupted object MAY be held as complete (control:
+            // only "no panic" is demanded); `default()` is documented as MD5 check ON (= new(true))
+            let b = Rc::new(match kind {
+                "bufdefault" => ObjectWriterBufferBuilder::default(),
+                "bufnew" => ObjectWriterBufferBuilder::new(true),
+                _ => ObjectWriterBufferBuilder::new(false),
+            });
             if let Err(loc) = feed(b.clone()) {
                 fails.push(("C04:panic".to_string(), format!("Receiver with ObjectWriterBufferBuilder panics at {}", loc)));
             }
             for o in b.objects.borrow().iter() {
                 let o = o.borrow();
-                if o.complete && o.data != want {
+                if kind != "bufoff" && o.complete && o.data != want {
                     fails.push((
                         "C03:complete-wrong-bytes".to_string(),
                         format!("ObjectWriterBufferBuilder ({}): object held as COMPLETE with {} bytes that are not the sender's object ({} bytes; Content-MD5 announced)", kind, o.data.len(), want.len()),
